@@ -1,4 +1,4 @@
-(* Source tie, family 79-gotrans-loops-misc, soyhtml/directives.go: directiveTruncate (argument checks, the default and
+(* Source tie, family 81-gotrans-directives, soyhtml/directives.go: directiveTruncate (argument checks, the default and
    the explicit ellipsis flag, the "- 3", the walk back to a rune start, the cut and the "...") against
    Model/Directives.v's truncate / back_to_rune_start, with the function as gotrans translates it from today's source.
    The printed value enters through its String() image ([st_string]); the loop's fuel is maxLen + 2, which the lemma
